@@ -567,7 +567,7 @@ def incremental_case(jaq, args, feed, expect):
 
 def main():
     run = Run("C03")
-    nprod = run.size(500, 40000)
+    nprod = run.size(2500, 40000)
     per = 25
     tasks = []
     for i in range(max(2, nprod // per)):
